@@ -11,6 +11,11 @@ CHECKS = {
          "Every issuer function on <=4 (quick) / <=6 (thorough) entities, every alias-mode vector, layout and suffix variant for <=3 entities is built as a directory and run through gopki; verdict, written paths and foreign files are compared with the model. Exhaustive within those bounds, which cover every rule of the consistency check (dangling, self-loop, cycles of every length, cycles below trees, alias collisions of each kind).",
          "Bounded hierarchy size; same-stem/different-suffix files and empty base names are outside the statement and excluded; trusted: Go crypto for signature verification, encoding/pem.",
          "DESIGN.md §3 C18"),
+ "C09": ("model_checking",
+         "exhaustive product of all small profiles and subjects on the real config.Validate against a reference predicate; file-pipeline runs for the abort clause",
+         "All 9363 profiles (lists <=4 over 4 attributes x optional, x allowOther, and the absent list) x all 3905 subjects (<=5 over 5 attributes) = 3.7e7 Validate calls are compared with the statement's predicate; 189 whole runs check that a rejected certificate at any tier aborts planning with an empty write log. Exhaustive within the bound; the walk has no state beyond two cursors, so lists of length 4/5 exercise every cursor interaction.",
+         "Profiles that repeat a required attribute are compared only where both readings of 'missing' agree; attribute names outside the documented table are excluded.",
+         "DESIGN.md §3 C09"),
 }
 NOT_YET = "check not built yet in this round (planned, see DESIGN.md §3)"
 
